@@ -186,6 +186,29 @@ def call(fn, state):
     return r
 
 
+def loop_steps(ck):
+    """trace validation proper for the loop Totality.tla models: the magnitude class of the timestamp at every visit of the loop head
+    (sys.settrace on to_datetime) against Totality!Loop, for numbers and numeric texts 0..8 factors of 1000 above the watershed"""
+    import datetime as _dt
+    from utype import type_transform
+    from .. import looptrace
+    recs = []
+    for kk in range(0, 9):
+        for x in (1.5e9 * 1000 ** kk, -(2 ** 31) * 1000 ** kk, int(3e9) * 1000 ** kk, "%de%d" % (7, 9 + 3 * kk), "-%d" % (4 * 10 ** (9 + 3 * kk))):
+            st = looptrace.observe_steps(lambda: type_transform(x, _dt.datetime), None, None, names=("to_datetime",))
+            if st:
+                recs.append({"id": "tl%d-%s" % (kk, str(x)[:12]), "steps": st})
+    res = tlc.judge("Trace_TotalitySteps", "Trace_TotalitySteps.cfg", recs, workers=1)
+    nsnap = sum(len(r["steps"]) for r in recs)
+    if res.distinct != nsnap or not recs:
+        raise MachineryError("trace acceptance (timestamp loop): TLC visited %d states, expected %d" % (res.distinct, nsnap))
+    ck.mc(res, "Trace timestamp loop")
+    ck.count("timestamp_loop_snapshots_validated_against_Totality_Loop", nsnap)
+    if res.tagged("DIV"):
+        ck.count("timestamp_loop_divergences", len(res.tagged("DIV")))
+        ck.note("divergence: the timestamp loop does not follow Totality!Loop at %s" % res.tagged("DIV")[:3])
+
+
 def main():
     ck = Check("C04")
     thorough = ck.tier == "thorough"
@@ -199,6 +222,7 @@ def main():
     if not mo.invariant_violated:
         raise MachineryError("Termination not refuted on Variant=orig")
     ck.count("orig_variant_refuted_by_TLC")
+    loop_steps(ck)
     records, n = [], 0
     anns = ANNOTATIONS if thorough else ANNOTATIONS
     hv = hostile(rng)
